@@ -1,7 +1,575 @@
-//! C06 harness module (not implemented yet).
+//! C06: all-but-one PPRF (crates/sl-oblivious/src/soft_spoken/all_but_one.rs).
+//! The real `build_pprf` / `eval_pprf` vs the extracted model coq/Model/Pprf.v (real merlin behind the
+//! model's transcript oracle), on honest runs, corrupted messages and a calibrated adversarial sender,
+//! plus an implementation-only oracle: the property itself evaluated on the real outputs.
+use crate::oracle::*;
 use crate::util::*;
+use merlin::Transcript;
+use rand::{Rng, RngCore};
+use sl_oblivious::constants::*;
+use sl_oblivious::endemic_ot::ReceiverOutput;
+use sl_oblivious::params::consts::*;
+use sl_oblivious::soft_spoken::{build_pprf, eval_pprf, PPRFOutput, ReceiverOTSeed, SenderOTSeed};
+use sl_oblivious::verif_hooks::sender_output_from_keys;
+use std::io::Write;
 
-pub fn run(_kv: &Args) -> i32 {
-    eprintln!("c06: not implemented");
-    2
+const K: usize = SOFT_SPOKEN_K;
+const NT: usize = LAMBDA_C / SOFT_SPOKEN_K;
+const Q: usize = SOFT_SPOKEN_Q;
+const LB: usize = LAMBDA_C_BYTES;
+const TREE_MSG: usize = (K - 1) * 2 * LB + 4 * LB; // t, s_tilda, t_tilda
+const OFF_S: usize = (K - 1) * 2 * LB;
+const OFF_T: usize = OFF_S + 2 * LB;
+
+type Key = [u8; LB];
+
+/// base-OT outputs: sender pairs, packed receiver choice bits, receiver keys (consistent by construction)
+#[derive(Clone)]
+struct Base {
+    sk: Vec<[Key; 2]>,
+    cb: [u8; LAMBDA_C_BYTES],
+    rk: Vec<Key>,
+}
+
+fn bit(cb: &[u8], i: usize) -> bool {
+    (cb[i >> 3] >> (i & 7)) & 1 == 1
+}
+
+impl Base {
+    /// `pattern`: how the choice bits are laid out; `keys`: how the sender keys are chosen
+    fn gen(r: &mut impl RngCore, pattern: usize, keys: usize) -> Base {
+        let mut sk = vec![[[0u8; LB]; 2]; LAMBDA_C];
+        for (i, p) in sk.iter_mut().enumerate() {
+            match keys {
+                0 => { r.fill_bytes(&mut p[0]); r.fill_bytes(&mut p[1]); }
+                1 => { r.fill_bytes(&mut p[0]); p[1] = p[0]; }               // rho_0 = rho_1
+                2 => { p[0] = [0u8; LB]; p[1] = [0xffu8; LB]; }               // constant keys
+                _ => { p[0] = [(i & 0xff) as u8; LB]; r.fill_bytes(&mut p[1]); }
+            }
+        }
+        let mut cb = [0u8; LAMBDA_C_BYTES];
+        match pattern {
+            0 => r.fill_bytes(&mut cb),
+            _ => {
+                // tree j gets the 4-bit pattern (a*j + b) mod 16: all 16 puncture patterns occur
+                let (a, b) = [(1usize, 0usize), (7, 3), (5, 9), (11, 15)][(pattern - 1) % 4];
+                for j in 0..NT {
+                    let v = (a * j + b) % Q;
+                    for i in 0..K {
+                        if (v >> i) & 1 == 1 {
+                            let idx = j * K + i;
+                            cb[idx >> 3] |= 1 << (idx & 7);
+                        }
+                    }
+                }
+            }
+        }
+        let rk = (0..LAMBDA_C).map(|i| sk[i][bit(&cb, i) as usize]).collect();
+        Base { sk, cb, rk }
+    }
+    fn sk_bytes(&self) -> Vec<u8> {
+        self.sk.iter().flat_map(|p| p[0].iter().chain(p[1].iter()).copied()).collect()
+    }
+    fn rk_bytes(&self) -> Vec<u8> {
+        self.rk.iter().flatten().copied().collect()
+    }
+    fn tree_bits(&self, j: usize) -> Vec<bool> {
+        (0..K).map(|i| bit(&self.cb, j * K + i)).collect()
+    }
+    /// punctured index as the paper defines it (independent of the code): complement of the choice bits, MSB first
+    fn expected_ystar(&self, j: usize) -> usize {
+        self.tree_bits(j).iter().fold(0usize, |a, &c| 2 * a + (!c) as usize)
+    }
+    fn patterns(&self) -> std::collections::BTreeSet<usize> {
+        (0..NT).map(|j| self.expected_ystar(j)).collect()
+    }
+}
+
+fn real_build(sid: &[u8], base: &Base, init_out: &[u8], init_seed: &[u8]) -> (Vec<u8>, Vec<u8>) {
+    let arr: [[Key; 2]; LAMBDA_C] = base.sk.clone().try_into().unwrap();
+    let so = sender_output_from_keys(&arr);
+    let mut seed: SenderOTSeed = bytemuck::pod_read_unaligned(init_seed);
+    let mut out: PPRFOutput = bytemuck::pod_read_unaligned(init_out);
+    build_pprf(sid, &so, &mut seed, &mut out);
+    (bytemuck::bytes_of(&out).to_vec(), bytemuck::bytes_of(&seed).to_vec())
+}
+
+fn real_eval(sid: &[u8], base: &Base, msg: &[u8], init_seed: &[u8]) -> (Result<(), String>, Vec<u8>) {
+    let keys: [Key; LAMBDA_C] = base.rk.clone().try_into().unwrap();
+    let ro = ReceiverOutput::new(base.cb, keys);
+    let out: PPRFOutput = bytemuck::pod_read_unaligned(msg);
+    let mut seed: ReceiverOTSeed = bytemuck::pod_read_unaligned(init_seed);
+    let r = eval_pprf(sid, &ro, &out, &mut seed).map_err(|e| e.to_string());
+    (r, bytemuck::bytes_of(&seed).to_vec())
+}
+
+fn model_build(drv: &mut Driver, sid: &[u8], base: &Base, init_out: &[u8]) -> Result<(Vec<u8>, Vec<u8>), String> {
+    let tt: Vec<u8> = (0..NT).flat_map(|j| init_out[j * TREE_MSG + OFF_T..(j + 1) * TREE_MSG].to_vec()).collect();
+    let v = drv.run("c06.build", &[hx(sid), hx(&base.sk_bytes()), hx(&tt)])?;
+    if v.len() != 2 { return Err(format!("bad result {:?}", v)); }
+    Ok((unhx(&v[0]), unhx(&v[1])))
+}
+
+/// ("ok", seed bytes) | ("err", code)
+fn model_eval(drv: &mut Driver, sid: &[u8], base: &Base, msg: &[u8]) -> Result<(bool, Vec<u8>), String> {
+    let v = drv.run("c06.eval", &[hx(sid), hx(&base.cb), hx(&base.rk_bytes()), hx(msg)])?;
+    match v.as_slice() {
+        [t, s] if t == "ok" => Ok((true, unhx(s))),
+        [t, _] if t == "err" => Ok((false, vec![])),
+        other => Err(format!("bad result {:?}", other)),
+    }
+}
+
+// ------------------------------------------------------------------------------------------------
+// Independent re-derivation of what a receiver with given choice bits computes for ONE tree
+// (used by the harness's own calibrated adversary; written over Option<node>, not after the code).
+fn h_ggm(sid: &[u8], seed: &Key) -> (Key, Key) {
+    let mut t = Transcript::new(&ALL_BUT_ONE_LABEL);
+    t.append_message(b"session-id", sid);
+    t.append_message(&ALL_BUT_ONE_PPRF_LABEL, seed);
+    let (mut a, mut b) = ([0u8; LB], [0u8; LB]);
+    t.challenge_bytes(b"", &mut a);
+    t.challenge_bytes(b"", &mut b);
+    (a, b)
+}
+fn h_proof(sid: &[u8], leaf: &Key) -> [u8; 2 * LB] {
+    let mut t = Transcript::new(&ALL_BUT_ONE_LABEL);
+    t.append_message(b"session-id", sid);
+    t.append_message(&ALL_BUT_ONE_PPRF_PROOF_LABEL, leaf);
+    let mut a = [0u8; 2 * LB];
+    t.challenge_bytes(b"", &mut a);
+    a
+}
+fn h_hash(sid: &[u8], vs: &[[u8; 2 * LB]]) -> [u8; 2 * LB] {
+    let mut t = Transcript::new(&ALL_BUT_ONE_LABEL);
+    t.append_message(b"session-id", sid);
+    for v in vs { t.append_message(b"", v); }
+    let mut a = [0u8; 2 * LB];
+    t.challenge_bytes(&ALL_BUT_ONE_PPRF_HASH_LABEL, &mut a);
+    a
+}
+fn xor_into(a: &mut [u8], b: &[u8]) {
+    for (x, y) in a.iter_mut().zip(b) { *x ^= y; }
+}
+fn sim_receiver_digest(sid: &[u8], bits: &[bool], keys: &[Key], tmsg: &[u8]) -> [u8; 2 * LB] {
+    let mut nodes: Vec<Option<Key>> = vec![None, None];
+    nodes[bits[0] as usize] = Some(keys[0]);
+    for i in 1..K {
+        let side = bits[i] as usize;
+        let mut next: Vec<Option<Key>> = vec![None; nodes.len() * 2];
+        let mut missing = 0usize;
+        let mut acc: Key = tmsg[((i - 1) * 2 + side) * LB..((i - 1) * 2 + side + 1) * LB].try_into().unwrap();
+        xor_into(&mut acc, &keys[i]);
+        for (y, n) in nodes.iter().enumerate() {
+            match n {
+                Some(s) => {
+                    let (l, r) = h_ggm(sid, s);
+                    xor_into(&mut acc, if side == 0 { &l } else { &r });
+                    next[2 * y] = Some(l);
+                    next[2 * y + 1] = Some(r);
+                }
+                None => missing = y,
+            }
+        }
+        next[2 * missing + side] = Some(acc);
+        nodes = next;
+    }
+    let mut views = vec![[0u8; 2 * LB]; nodes.len()];
+    let mut acc: [u8; 2 * LB] = tmsg[OFF_T..OFF_T + 2 * LB].try_into().unwrap();
+    let mut missing = 0;
+    for (y, n) in nodes.iter().enumerate() {
+        match n {
+            Some(s) => { views[y] = h_proof(sid, s); xor_into(&mut acc, &views[y]); }
+            None => missing = y,
+        }
+    }
+    views[missing] = acc;
+    h_hash(sid, &views)
+}
+
+/// the harness's own calibrated adversary: honest message, t[level][side] ^= delta in `tree`, s_tilda
+/// re-derived for the guessed choice bits `g`
+fn adv_message(sid: &[u8], base: &Base, honest: &[u8], tree: usize, level: usize, side: usize, delta: &Key, g: &[bool]) -> Vec<u8> {
+    let mut m = honest.to_vec();
+    let o = tree * TREE_MSG;
+    xor_into(&mut m[o + (level * 2 + side) * LB..o + (level * 2 + side + 1) * LB], delta);
+    let keys: Vec<Key> = (0..K).map(|i| base.sk[tree * K + i][g[i] as usize]).collect();
+    let d = sim_receiver_digest(sid, g, &keys, &m[o..o + TREE_MSG]);
+    m[o + OFF_S..o + OFF_S + 2 * LB].copy_from_slice(&d);
+    m
+}
+
+// ------------------------------------------------------------------------------------------------
+/// the property on real outputs: per tree 15 learned leaves equal the sender's, y* as expected (< Q),
+/// the slot y* differs from the sender's leaf.  Returns the first violated clause.
+fn leaves_property(base: &Base, sseed: &[u8], rseed: &[u8]) -> Option<String> {
+    for j in 0..NT {
+        let y = rseed[j] as usize;
+        if y >= Q { return Some(format!("tree {j}: random_choices = {y} >= {Q}")); }
+        if y != base.expected_ystar(j) { return Some(format!("tree {j}: y* = {y}, choice bits say {}", base.expected_ystar(j))); }
+        for l in 0..Q {
+            let s = &sseed[(j * Q + l) * LB..(j * Q + l + 1) * LB];
+            let r = &rseed[NT + (j * Q + l) * LB..NT + (j * Q + l + 1) * LB];
+            if l != y && s != r { return Some(format!("tree {j}: learned leaf {l} differs from the sender's")); }
+            if l == y && s == r { return Some(format!("tree {j}: the punctured slot {l} holds the sender's leaf")); }
+        }
+    }
+    None
+}
+
+#[derive(Clone)]
+struct Item {
+    tag: String,     // kind tag
+    base: usize,     // index into the list of honest runs
+    sid: Vec<u8>,    // session id used for evaluation
+    msg: Vec<u8>,    // message handed to eval_pprf
+    /// Some(v): the implementation-only oracle additionally demands this verdict
+    expect: Option<bool>,
+    /// adversarial items: model call that must reproduce `msg` byte for byte
+    adv: Option<(usize, usize, usize, Key, Vec<bool>)>,
+    desc: String,
+}
+
+struct Outcome {
+    evals: u64,
+    queries: u64,
+    disagree: Vec<String>,
+    oracle: Vec<String>,
+    sample: String,
+}
+
+struct Honest {
+    sid: Vec<u8>,
+    base: Base,
+    msg: Vec<u8>,
+    sseed: Vec<u8>,
+    zero_init: bool,
+}
+
+fn full_input(sid: &[u8], base: &Base, msg: &[u8]) -> String {
+    format!("sid={} choice_bits={} sender_keys={} message={}", hx(sid), hx(&base.cb), hx(&base.sk_bytes()), hx(msg))
+}
+
+fn run_item(drv: &mut Driver, hs: &[Honest], it: &Item) -> Outcome {
+    let h = &hs[it.base];
+    let q0 = drv.queries;
+    let mut o = Outcome { evals: 0, queries: 0, disagree: vec![], oracle: vec![], sample: String::new() };
+    if let Some((tree, level, side, delta, g)) = &it.adv {
+        let gs: String = g.iter().map(|&b| if b { '1' } else { '0' }).collect();
+        let zero_tt = vec![0u8; NT * 2 * LB];
+        let m = drv.run("c06.adv", &[hx(&h.sid), hx(&h.base.sk_bytes()), hx(&zero_tt), tree.to_string(), level.to_string(),
+                                      side.to_string(), hx(delta), gs]);
+        o.evals += 1;
+        match m {
+            Ok(v) if v.len() == 2 && unhx(&v[0]) == it.msg && unhx(&v[1]) == h.sseed => {}
+            Ok(v) => o.disagree.push(format!("{}: adversarial message of the model differs from the harness's ({}); first differing byte {:?}",
+                it.tag, it.desc, unhx(&v[0]).iter().zip(&it.msg).position(|(a, b)| a != b))),
+            Err(e) => o.disagree.push(format!("{}: model adv failed: {e}", it.tag)),
+        }
+    }
+    let zero_seed = vec![0u8; std::mem::size_of::<ReceiverOTSeed>()];
+    let (verdict, rseed) = real_eval(&it.sid, &h.base, &it.msg, &zero_seed);
+    let mv = model_eval(drv, &it.sid, &h.base, &it.msg);
+    o.evals += 1;
+    match (&verdict, &mv) {
+        (Ok(()), Ok((true, ms))) if *ms == rseed => {}
+        (Err(_), Ok((false, _))) => {}
+        (Ok(()), Ok((true, _))) => o.disagree.push(format!("{} {}: both accept, receiver seeds differ; {}", it.tag, it.desc, full_input(&it.sid, &h.base, &it.msg))),
+        _ => o.disagree.push(format!("{} {}: impl verdict {:?}, model {:?}; {}", it.tag, it.desc, verdict,
+                                     mv.as_ref().map(|x| x.0), full_input(&it.sid, &h.base, &it.msg))),
+    }
+    // implementation-only oracle (messages altered in transit): accepted => every learned leaf is the sender's and the
+    // punctured slot is not.  (Not demanded of the calibrated adversary: a right guess is accepted WITH wrong leaves.)
+    if verdict.is_ok() && it.adv.is_none() {
+        if let Some(w) = leaves_property(&h.base, &h.sseed, &rseed) {
+            o.oracle.push(format!("{} {}: eval_pprf accepted but {w}; {}", it.tag, it.desc, full_input(&it.sid, &h.base, &it.msg)));
+        }
+    }
+    if let Some(e) = it.expect {
+        if verdict.is_ok() != e {
+            o.oracle.push(format!("{} {}: eval_pprf {} but the property demands {}; {}", it.tag, it.desc,
+                if verdict.is_ok() { "accepted" } else { "rejected" }, if e { "acceptance" } else { "rejection" },
+                full_input(&it.sid, &h.base, &it.msg)));
+        }
+    }
+    o.sample = format!("{} {} -> impl {} model {}", it.tag, it.desc, if verdict.is_ok() { "ok" } else { "Err(Invalid proof)" },
+                       match &mv { Ok((true, _)) => "ok".to_string(), Ok((false, _)) => "Err".to_string(), Err(e) => e.clone() });
+    o.queries = drv.queries - q0;
+    o
+}
+
+pub fn run(kv: &Args) -> i32 {
+    let seed = kv.u64("seed", 1);
+    let out = kv.str("out", "/verif/build/run/C06");
+    std::fs::create_dir_all(&out).unwrap();
+    let thorough = kv.thorough();
+    let mut r = rng(seed, "c06");
+    let mut drv = Driver::spawn();
+    let mut disagreements: Vec<String> = vec![];
+    let mut oracle_fail: Vec<String> = vec![];
+    let mut samples: Vec<String> = vec![];
+    let mut kinds: std::collections::BTreeMap<String, u64> = Default::default();
+    let mut n_eval = 0u64;
+    let mut n_nontrivial = 0u64;
+    let mut log = std::fs::File::create(format!("{out}/cases.txt")).unwrap();
+
+    // constants of the model vs the real ones
+    match drv.run("c06.consts", &[]) {
+        Ok(v) if v == vec![K.to_string(), NT.to_string(), (2 * LB).to_string()] => {}
+        other => disagreements.push(format!("constants: model {:?}, implementation K={K} trees={NT} proof bytes={}", other, 2 * LB)),
+    }
+    if std::mem::size_of::<PPRFOutput>() != NT * TREE_MSG {
+        disagreements.push(format!("layout: size_of PPRFOutput = {} , model layout {}", std::mem::size_of::<PPRFOutput>(), NT * TREE_MSG));
+    }
+
+    // ---------------------------------------------------------------- honest runs
+    let n_honest = if thorough { 24 } else { 6 };
+    let sid_lens = [32usize, 0, 1, 100];
+    let mut hs: Vec<Honest> = vec![];
+    let mut all_patterns = true;
+    for case in 0..n_honest {
+        let mut sid = vec![0u8; sid_lens[case % 4]];
+        r.fill_bytes(&mut sid);
+        // patterned choice bits in the even cases, random ones in the odd cases (re-drawn until all 16 patterns occur)
+        let mut base = Base::gen(&mut r, if case % 2 == 0 { 1 + case / 2 } else { 0 }, [0, 0, 0, 1, 2, 3][case % 6]);
+        while base.patterns().len() < Q { base = Base::gen(&mut r, 0, 0); }
+        all_patterns &= base.patterns().len() == Q;
+        // cases 0,1,2 (mod 6): zeroed buffers (what Default provides); others: reused non-zero buffers
+        let zero_init = case % 6 < 3;
+        let mut init_out = vec![0u8; NT * TREE_MSG];
+        let mut init_sseed = vec![0u8; std::mem::size_of::<SenderOTSeed>()];
+        let mut init_rseed = vec![0u8; std::mem::size_of::<ReceiverOTSeed>()];
+        if !zero_init {
+            r.fill_bytes(&mut init_out);
+            r.fill_bytes(&mut init_sseed);
+            r.fill_bytes(&mut init_rseed);
+        }
+        let (msg, sseed) = real_build(&sid, &base, &init_out, &init_sseed);
+        let tag = if zero_init { "honest" } else { "honest-reused-buffers" };
+        *kinds.entry(tag.to_string()).or_default() += 1;
+        n_eval += 2;
+        match model_build(&mut drv, &sid, &base, &init_out) {
+            Ok((mm, ms)) => {
+                if mm != msg {
+                    disagreements.push(format!("{tag} case {case}: PPRF message differs at byte {:?}; sid={} choice_bits={} sender_keys={}",
+                        mm.iter().zip(&msg).position(|(a, b)| a != b), hx(&sid), hx(&base.cb), hx(&base.sk_bytes())));
+                }
+                if ms != sseed {
+                    disagreements.push(format!("{tag} case {case}: SenderOTSeed differs at byte {:?}; sid={} sender_keys={}",
+                        ms.iter().zip(&sseed).position(|(a, b)| a != b), hx(&sid), hx(&base.sk_bytes())));
+                }
+            }
+            Err(e) => disagreements.push(format!("{tag} case {case}: model build failed: {e}")),
+        }
+        let (verdict, rseed) = real_eval(&sid, &base, &msg, &init_rseed);
+        match model_eval(&mut drv, &sid, &base, &msg) {
+            Ok((true, ms)) if verdict.is_ok() && ms == rseed => {}
+            Ok((false, _)) if verdict.is_err() => {}
+            other => disagreements.push(format!("{tag} case {case}: eval impl {:?} model {:?}; {}", verdict, other.map(|x| x.0), full_input(&sid, &base, &msg))),
+        }
+        writeln!(log, "{tag} case={case} sid={} choice_bits={} patterns={} verdict={:?} msg[0..32]={}", hx(&sid), hx(&base.cb),
+                 base.patterns().len(), verdict, hx(&msg[..32])).unwrap();
+        if zero_init {
+            // implementation-only oracle: the first sentence of the property
+            if verdict.is_err() {
+                oracle_fail.push(format!("honest case {case}: eval_pprf rejected an honest message; {}", full_input(&sid, &base, &msg)));
+            } else if let Some(w) = leaves_property(&base, &sseed, &rseed) {
+                oracle_fail.push(format!("honest case {case}: {w}; {}", full_input(&sid, &base, &msg)));
+            }
+            hs.push(Honest { sid, base, msg, sseed, zero_init });
+        }
+        if samples.len() < 2 {
+            samples.push(format!("{tag} sid_len={} -> impl {:?}, message and both seed structures byte-equal to the model", sid_lens[case % 4], verdict));
+        }
+    }
+    if !all_patterns { disagreements.push("case generator: not all 16 puncture patterns occur".into()); }
+
+    // ---------------------------------------------------------------- corrupted messages
+    let mut items: Vec<Item> = vec![];
+    let nb = hs.len();
+    let flip = |h: &Honest, tree: usize, off: usize, bitno: usize| -> Vec<u8> {
+        let mut m = h.msg.clone();
+        m[tree * TREE_MSG + off] ^= 1 << bitno;
+        m
+    };
+    // which region a byte offset inside a tree's message belongs to, from the receiver's point of view
+    let region = |h: &Honest, tree: usize, off: usize| -> (&'static str, Option<bool>) {
+        if off >= OFF_T { ("t_tilda", Some(false)) }
+        else if off >= OFF_S { ("s_tilda", Some(false)) }
+        else {
+            let level = off / (2 * LB);
+            let side = (off / LB) % 2;
+            if bit(&h.base.cb, tree * K + level + 1) as usize == side { ("t_used", Some(false)) } else { ("t_unused", Some(true)) }
+        }
+    };
+    let pick_tree = |r: &mut rand_chacha::ChaCha20Rng, n: usize| -> usize {
+        match n % 4 { 0 => 0, 1 => NT - 1, _ => (r.next_u32() as usize) % NT }
+    };
+    if !thorough {
+        // stratified single-bit flips: 30 per region class, plus 30 whole-byte replacements
+        for n in 0..150usize {
+            let bi = n % nb;
+            let h = &hs[bi];
+            let tree = pick_tree(&mut r, n / nb);
+            let class = n % 5;
+            let off = match class {
+                0 => OFF_S + (r.next_u32() as usize) % (2 * LB),
+                1 => OFF_T + (r.next_u32() as usize) % (2 * LB),
+                2 | 3 => {
+                    let level = (r.next_u32() as usize) % (K - 1);
+                    let c = bit(&h.base.cb, tree * K + level + 1) as usize;
+                    let side = if class == 2 { c } else { 1 - c };
+                    (level * 2 + side) * LB + (r.next_u32() as usize) % LB
+                }
+                _ => (r.next_u32() as usize) % TREE_MSG,
+            };
+            let (reg, expect) = region(h, tree, off);
+            let (msg, what) = if class == 4 {
+                let mut m = h.msg.clone();
+                let old = m[tree * TREE_MSG + off];
+                let mut v = (r.next_u32() & 0xff) as u8;
+                if v == old { v = old.wrapping_add(1); }
+                m[tree * TREE_MSG + off] = v;
+                (m, format!("byte {old:02x}->{v:02x}"))
+            } else {
+                let b = (r.next_u32() as usize) % 8;
+                (flip(h, tree, off, b), format!("bit {b}"))
+            };
+            items.push(Item { tag: format!("flip-{reg}"), base: bi, sid: h.sid.clone(), msg, expect, adv: None,
+                              desc: format!("base={bi} tree={tree} offset={off} {what}") });
+        }
+    } else {
+        // every bit of the message region of one tree (first, last and a middle tree rotate over the bases)
+        for (n, &tree) in [0usize, NT - 1, 29].iter().enumerate() {
+            let bi = n % nb;
+            let h = &hs[bi];
+            let stride = if n == 0 { 1 } else { 5 };
+            for bitpos in (0..TREE_MSG * 8).step_by(stride) {
+                let (off, b) = (bitpos / 8, bitpos % 8);
+                let (reg, expect) = region(h, tree, off);
+                items.push(Item { tag: format!("flip-{reg}"), base: bi, sid: h.sid.clone(), msg: flip(h, tree, off, b), expect, adv: None,
+                                  desc: format!("base={bi} tree={tree} offset={off} bit {b}") });
+            }
+        }
+        // strided over all trees
+        for tree in 0..NT {
+            let bi = tree % nb;
+            let h = &hs[bi];
+            for k in 0..24usize {
+                let bitpos = (tree * 131 + k * 107 + 3) % (TREE_MSG * 8);
+                let (off, b) = (bitpos / 8, bitpos % 8);
+                let (reg, expect) = region(h, tree, off);
+                items.push(Item { tag: format!("flip-{reg}"), base: bi, sid: h.sid.clone(), msg: flip(h, tree, off, b), expect, adv: None,
+                                  desc: format!("base={bi} tree={tree} offset={off} bit {b}") });
+            }
+        }
+    }
+    // cross-session / cross-tree / cross-base substitution
+    let n_cross = if thorough { 60 } else { 9 };
+    for n in 0..n_cross {
+        let bi = n % nb;
+        let h = &hs[bi];
+        match n % 3 {
+            0 => {
+                // the message of another session id (one bit of the sid changed, a byte appended, or truncated)
+                let mut sid2 = h.sid.clone();
+                let what = if sid2.is_empty() || n % 2 == 1 { sid2.push(0); "sid+00" } else { let l = sid2.len(); sid2[l - 1] ^= 1; "sid bit" };
+                items.push(Item { tag: "cross-session".into(), base: bi, sid: sid2, msg: h.msg.clone(), expect: Some(false), adv: None,
+                                  desc: format!("base={bi} {what}") });
+            }
+            1 => {
+                // tree messages of two trees exchanged
+                let (a, b) = (pick_tree(&mut r, n), (r.next_u32() as usize) % NT);
+                let b = if a == b { (b + 1) % NT } else { b };
+                let mut m = h.msg.clone();
+                let ta = m[a * TREE_MSG..(a + 1) * TREE_MSG].to_vec();
+                let tb = m[b * TREE_MSG..(b + 1) * TREE_MSG].to_vec();
+                m[a * TREE_MSG..(a + 1) * TREE_MSG].copy_from_slice(&tb);
+                m[b * TREE_MSG..(b + 1) * TREE_MSG].copy_from_slice(&ta);
+                items.push(Item { tag: "cross-tree".into(), base: bi, sid: h.sid.clone(), msg: m, expect: Some(false), adv: None,
+                                  desc: format!("base={bi} trees {a}<->{b}") });
+            }
+            _ => {
+                // the message another sender built for the same session id
+                let other = Base::gen(&mut r, 0, 0);
+                let (m, _) = real_build(&h.sid, &other, &vec![0u8; NT * TREE_MSG], &vec![0u8; std::mem::size_of::<SenderOTSeed>()]);
+                items.push(Item { tag: "cross-base".into(), base: bi, sid: h.sid.clone(), msg: m, expect: Some(false), adv: None,
+                                  desc: format!("base={bi} message of unrelated base OTs") });
+            }
+        }
+    }
+    // ---------------------------------------------------------------- calibrated adversarial sender
+    let n_adv = if thorough { 2000 } else { 42 };
+    for n in 0..n_adv {
+        let bi = n % nb;
+        let h = &hs[bi];
+        let tree = pick_tree(&mut r, n / 18);
+        let level = (n / 6) % (K - 1);
+        let c = h.base.tree_bits(tree);
+        let mut delta = [0u8; LB];
+        if n % 7 == 3 { delta[(r.next_u32() as usize) % LB] = 1 << (r.next_u32() % 8); } else { r.fill_bytes(&mut delta); }
+        // six situations: the receiver uses / does not use the tampered side  x  guess right / wrong at that level / wrong elsewhere
+        let uses = n % 2 == 0;
+        let side = if uses { c[level + 1] as usize } else { 1 - c[level + 1] as usize };
+        let mut g = c.clone();
+        let (gk, expect) = match (n / 2) % 3 {
+            0 => ("right", true),
+            1 => { g[level + 1] = !g[level + 1]; ("wrong-level-bit", false) }
+            _ => {
+                let mut o = (r.next_u32() as usize) % K;
+                if o == level + 1 { o = (o + 1) % K; }
+                g[o] = !g[o];
+                // neither the receiver nor the guessed receiver reads the tampered word: harmless
+                ("wrong-other-bit", !uses)
+            }
+        };
+        let msg = adv_message(&h.sid, &h.base, &h.msg, tree, level, side, &delta, &g);
+        items.push(Item { tag: format!("adv-{}-{gk}", if uses { "used" } else { "unused" }), base: bi, sid: h.sid.clone(), msg,
+                          expect: Some(expect), adv: Some((tree, level, side, delta, g.clone())),
+                          desc: format!("base={bi} tree={tree} level={level} side={side} delta={} guess={:?} path={:?}", hx(&delta), g, c) });
+    }
+
+    // ---------------------------------------------------------------- run the items (parallel drivers)
+    let nthreads = kv.u64("threads", if thorough { 12 } else { 6 }) as usize;
+    let mut total_queries = drv.queries;
+    drop(drv);
+    let results: Vec<Vec<(usize, Outcome)>> = std::thread::scope(|s| {
+        let hs = &hs;
+        let items = &items;
+        let handles: Vec<_> = (0..nthreads).map(|t| s.spawn(move || {
+            let mut d = Driver::spawn();
+            let mut v = vec![];
+            let mut i = t;
+            while i < items.len() {
+                v.push((i, run_item(&mut d, hs, &items[i])));
+                i += nthreads;
+            }
+            v
+        })).collect();
+        handles.into_iter().map(|h| h.join().expect("worker panicked")).collect()
+    });
+    let mut flat: Vec<(usize, Outcome)> = results.into_iter().flatten().collect();
+    flat.sort_by_key(|x| x.0);
+    let mut sample_tags = std::collections::BTreeSet::new();
+    for (i, o) in flat {
+        let it = &items[i];
+        n_eval += o.evals;
+        n_nontrivial += 1;
+        total_queries += o.queries;
+        *kinds.entry(it.tag.clone()).or_default() += 1;
+        writeln!(log, "{}", o.sample).unwrap();
+        if sample_tags.insert(it.tag.clone()) && samples.len() < 12 { samples.push(o.sample.clone()); }
+        disagreements.extend(o.disagree);
+        oracle_fail.extend(o.oracle);
+    }
+
+    let mut f = std::fs::File::create(format!("{out}/result.txt")).unwrap();
+    writeln!(f, "evaluations {n_eval}").unwrap();
+    writeln!(f, "mutations {n_nontrivial}").unwrap();
+    writeln!(f, "oracle_queries {total_queries}").unwrap();
+    for (k, v) in &kinds { writeln!(f, "kind {k} {v}").unwrap(); }
+    for s in &samples { writeln!(f, "SAMPLE {s}").unwrap(); }
+    for d in &disagreements { writeln!(f, "DISAGREE {d}").unwrap(); }
+    for d in &oracle_fail { writeln!(f, "ORACLE {d}").unwrap(); }
+    0
 }
